@@ -53,3 +53,8 @@ def replay(ctx, payload):
         from harness import c08_files
         return c08_files.files_explore(ctx, replay=w)
     return ce.replay_cache(ctx, w, PROPS)
+
+
+def explore_shard(ctx):
+    """extra parallel shard of the thorough tier: the seeded histories (cooperative scheduler, logical clock)"""
+    return ce.explore_cache(ctx, PROPS, 5000, steps=6)
